@@ -4,6 +4,7 @@
 package c15
 
 import (
+	"strings"
 	"bytes"
 	"fmt"
 	"testing"
@@ -22,7 +23,7 @@ var R = hx.NewRecorder("C15", "cases = (endpoint kind: GMSSL client | GMSSL-only
 	"oracle = Handshake() returns (quiescence of the in-memory transport turns waiting into EOF; a read-after-EOF counter catches spinning), returns an error for every true deviation, HandshakeComplete stays false, no panic; legal variations (fragmented or coalesced messages, unknown ticket) must still succeed; non-trivial = deviation applied after at least one valid message or in the first message; distinct by hash of the plan")
 
 func TestMain(m *testing.M) {
-	R.Require("hello_vector_lengths", "dev:cke_ciphertext_byte", "dev:cert_list", "peer_pressed_on_after_alert", "endpoint:gmclient", "endpoint:gmserver", "endpoint:autoserver", "endpoint:tlsserver", "endpoint:tlsclient", "vers_sweep_done", "dev:omit", "dev:repeat", "dev:retype", "dev:reorder", "dev:truncate", "dev:len_field", "dev:split", "dev:coalesce",
+	R.Require("dev:big_record", "replay_deep:gmclient", "replay_deep:tlsclient", "replay_deep:gmserver", "replay_deep:tlsserver", "replay_deep:autoserver", "replay_control", "replay:omit_msg", "replay:hello_ext", "replay:swap_msgs", "hello_vector_lengths", "dev:cke_ciphertext_byte", "dev:cert_list", "peer_pressed_on_after_alert", "endpoint:gmclient", "endpoint:gmserver", "endpoint:autoserver", "endpoint:tlsserver", "endpoint:tlsclient", "vers_sweep_done", "dev:omit", "dev:repeat", "dev:retype", "dev:reorder", "dev:truncate", "dev:len_field", "dev:split", "dev:coalesce",
 		"dev:oversize", "dev:ccs_early", "dev:appdata_early", "dev:alert_fatal", "dev:unknown_record", "dev:close", "dev:record_overflow", "replay_perturbed", "legal_must_succeed", "cke_1byte", "hostile_suites")
 	for d := 0; d <= 5; d++ {
 		R.Require(fmt.Sprintf("depth:%d", d))
@@ -40,7 +41,7 @@ type deviation struct {
 var serverSteps = []string{"ServerHello", "Certificate", "ServerKeyExchange", "CertificateRequest", "ServerHelloDone", "ChangeCipherSpec", "Finished"}
 var clientSteps = []string{"ClientHello", "ClientCertificate", "ClientKeyExchange", "CertificateVerify", "ChangeCipherSpec", "Finished"}
 
-var devKinds = []string{"omit", "repeat", "retype", "reorder", "truncate", "truncate_fixlen", "len_field", "split", "coalesce", "oversize", "ccs_early", "appdata_early", "alert_fatal", "alert_warning", "unknown_record", "unknown_hstype", "close", "record_overflow", "inner_byte", "cert_list"}
+var devKinds = []string{"omit", "repeat", "retype", "reorder", "truncate", "truncate_fixlen", "len_field", "split", "coalesce", "oversize", "ccs_early", "appdata_early", "alert_fatal", "alert_warning", "unknown_record", "unknown_hstype", "close", "record_overflow", "inner_byte", "cert_list", "big_record"}
 
 func hsRecord(data []byte) []byte {
 	return append([]byte{22, 1, 1, byte(len(data) >> 8), byte(len(data))}, data...)
@@ -52,7 +53,7 @@ func planFor(d deviation) (*rgmssl.Plan, *bool, bool, string) {
 	var held *rgmssl.Out
 	eff := ""
 	defer func() {}()
-	legal := d.Kind == "split" || d.Kind == "coalesce"
+	legal := d.Kind == "split" || d.Kind == "coalesce" || (d.Kind == "big_record" && d.K%2 == 0)
 	sameFlight := map[string]bool{"ServerHello": true, "Certificate": true, "ServerKeyExchange": true, "CertificateRequest": true, "ClientCertificate": true, "ClientKeyExchange": true}
 	if d.Kind == "coalesce" && !sameFlight[d.Step] {
 		// the next outgoing message belongs to a later flight: holding this one back would just stall
@@ -220,6 +221,16 @@ func planFor(d deviation) (*rgmssl.Plan, *bool, bool, string) {
 			body = append([]byte{byte(len(body) >> 16), byte(len(body) >> 8), byte(len(body))}, body...)
 			o.Data = append([]byte{11, byte(len(body) >> 16), byte(len(body) >> 8), byte(len(body))}, body...)
 			return []rgmssl.Out{o}
+		case "big_record":
+			// a Certificate message of 16.4..18 KiB (many certificates): fragmented at 2^14 it is legal and must be
+			// accepted (K even); as ONE record it exceeds the plaintext limit although it stays below the ciphertext
+			// limit of 2^14+2048, and must be refused (K odd)
+			if len(data) <= 16384 {
+				*fired = false
+				return []rgmssl.Out{o}
+			}
+			o.NoFragment = d.K%2 == 1
+			return []rgmssl.Out{o}
 		case "record_overflow":
 			n := 16384 + 2048 + 1 + d.K%1000
 			rec := append([]byte{22, 1, 1, byte(n >> 8), byte(n)}, make([]byte, n)...)
@@ -294,6 +305,15 @@ func TestC15_ScriptedDeviations(t *testing.T) {
 			d.Step = map[bool]string{true: "Certificate", false: "ClientCertificate"}[ep == "gmclient"]
 			clientAuth = true
 		}
+		bigCerts := 0
+		if d.Kind == "big_record" {
+			if ep == "gmclient" {
+				ep = "gmserver"
+				steps = clientSteps
+			}
+			d.Step, clientAuth = "ClientCertificate", true
+			bigCerts = (16500+d.K%1500)/(len(p.Client.DER)+3) + 1
+		}
 		plan, fired, legal, eff := planFor(d)
 		d.Kind = eff
 		// half of the deviating peers press on after an alert instead of giving up
@@ -321,6 +341,9 @@ func TestC15_ScriptedDeviations(t *testing.T) {
 			co := rgmssl.ClientOpts{Suites: []uint16{suite}}
 			if clientAuth {
 				co.Cert, co.CertD = p.Client.DER, p.Client.SM2D
+			}
+			for i := 0; i < bigCerts; i++ {
+				co.ExtraCerts = append(co.ExtraCerts, p.Client.DER)
 			}
 			r = tlsx.RunAgainstScriptedClient(sc, co, plan, seed, []byte("x"))
 		}
@@ -606,6 +629,94 @@ func recordAware(t *rapid.T, stream []byte) ([]byte, string) {
 	return out, kind
 }
 
+// messageAware rewrites the unprotected part of a recorded flight at the level of handshake MESSAGES (several of them
+// usually share one record): one message omitted, duplicated, swapped with its successor, retyped, cut short with a
+// consistent length, or - for hellos - given a rebuilt extension block. Each message is re-framed in a record of its own.
+func messageAware(t *rapid.T, stream []byte) ([]byte, string) {
+	recs := wire.SplitRecords(stream)
+	var hs []byte
+	var tail [][]byte
+	vers := []byte{3, 1}
+	for i, r := range recs {
+		if r[0] != 22 {
+			tail = recs[i:]
+			break
+		}
+		vers = []byte{r[1], r[2]}
+		hs = append(hs, r[5:]...)
+	}
+	var msgs [][]byte
+	for len(hs) >= 4 {
+		n := int(hs[1])<<16 | int(hs[2])<<8 | int(hs[3])
+		if len(hs) < 4+n {
+			break
+		}
+		msgs = append(msgs, append([]byte(nil), hs[:4+n]...))
+		hs = hs[4+n:]
+	}
+	if len(msgs) == 0 {
+		return stream[:len(stream)/2], "truncation"
+	}
+	i := rapid.IntRange(0, len(msgs)-1).Draw(t, "msg")
+	kind := rapid.SampledFrom([]string{"omit_msg", "omit_msg", "dup_msg", "swap_msgs", "retype_msg", "cut_msg", "hello_ext"}).Draw(t, "mkind")
+	switch kind {
+	case "omit_msg":
+		msgs = append(msgs[:i], msgs[i+1:]...)
+	case "dup_msg":
+		msgs = append(msgs[:i+1], append([][]byte{msgs[i]}, msgs[i+1:]...)...)
+	case "swap_msgs":
+		if i+1 < len(msgs) {
+			msgs[i], msgs[i+1] = msgs[i+1], msgs[i]
+		} else {
+			msgs = msgs[:i]
+			kind = "omit_msg"
+		}
+	case "retype_msg":
+		m := append([]byte(nil), msgs[i]...)
+		nt := rapid.SampledFrom([]byte{0, 1, 2, 4, 11, 12, 13, 14, 15, 16, 20, 22, 67}).Draw(t, "newtype")
+		if nt == m[0] {
+			nt = 99
+		}
+		m[0] = nt
+		msgs[i] = m
+	case "cut_msg":
+		m := msgs[i]
+		if len(m) > 4 {
+			k := rapid.IntRange(0, len(m)-5).Draw(t, "keep")
+			m = append([]byte(nil), m[:4+k]...)
+			m[1], m[2], m[3] = byte(k>>16), byte(k>>8), byte(k)
+			msgs[i] = m
+		} else {
+			msgs = append(msgs[:i], msgs[i+1:]...)
+			kind = "omit_msg"
+		}
+	case "hello_ext":
+		muts := gen.HelloExtMutations(msgs[0], false)
+		if len(muts) == 0 {
+			msgs = msgs[1:]
+			kind = "omit_msg"
+		} else {
+			msgs[0] = muts[rapid.IntRange(0, len(muts)-1).Draw(t, "extmut")].Data
+		}
+	}
+	var out []byte
+	for _, m := range msgs {
+		for len(m) > 0 {
+			n := len(m)
+			if n > 16384 {
+				n = 16384
+			}
+			out = append(out, 22, vers[0], vers[1], byte(n>>8), byte(n))
+			out = append(out, m[:n]...)
+			m = m[n:]
+		}
+	}
+	for _, r := range tail {
+		out = append(out, r...)
+	}
+	return out, kind
+}
+
 func TestC15_ReplayPerturbed(t *testing.T) {
 	n := 0
 	hx.Check(t, hx.N(2500, 30000), func(t *rapid.T) {
@@ -623,8 +734,10 @@ func TestC15_ReplayPerturbed(t *testing.T) {
 		}
 		var mutated []byte
 		var what string
-		if rapid.Bool().Draw(t, "recordaware") {
+		if how := gen.Uniform(t, "how", 3); how == 0 {
 			mutated, what = recordAware(t, stream)
+		} else if how == 1 {
+			mutated, what = messageAware(t, stream)
 		} else {
 			pt := gen.Perturb(stream, false).Draw(t, "perturb")
 			mutated, what = pt.Data, pt.Kind
@@ -702,6 +815,12 @@ func TestC15_HelloVectorLengths(t *testing.T) {
 
 // replayAgainst feeds one byte stream, then end of input, to a fresh endpoint of the given kind.
 func replayAgainst(ep string, stream []byte, seed string) (hsErr error, pn *hx.PanicInfo, complete bool) {
+	hsErr, pn, complete, _ = replayAgainstW(ep, stream, seed)
+	return
+}
+
+// replayAgainstW also reports how many bytes the endpoint wrote (how far the handshake got).
+func replayAgainstW(ep string, stream []byte, seed string) (hsErr error, pn *hx.PanicInfo, complete bool, wrote int) {
 	p := tlsx.GetPKI()
 	var conn *gmtls.Conn
 	hub := wire.NewHub()
@@ -713,7 +832,9 @@ func replayAgainst(ep string, stream []byte, seed string) (hsErr error, pn *hx.P
 		cc.Certificates = []gmtls.Certificate{p.Client.TLS}
 		conn, peerW = gmtls.Client(cw, cc), sw
 	case "tlsclient":
-		conn, peerW = gmtls.Client(cw, tlsx.TLSClient(p, seed)), sw
+		tc := tlsx.TLSClient(p, seed)
+		tc.NextProtos = []string{"h2", "http/1.1", "x"} // as in the recording: the recorded ServerHello selects one
+		conn, peerW = gmtls.Client(cw, tc), sw
 	case "gmserver":
 		sc := tlsx.GMServer(p, seed)
 		sc.ClientAuth, sc.ClientCAs = gmtls.RequestClientCert, p.RootsSM2
@@ -732,14 +853,58 @@ func replayAgainst(ep string, stream []byte, seed string) (hsErr error, pn *hx.P
 		// drain what the endpoint says so that it never blocks on us
 		buf := make([]byte, 4096)
 		for {
-			if _, err := peerW.Read(buf); err != nil {
+			n, err := peerW.Read(buf)
+			wrote += n
+			if err != nil {
 				return
 			}
 		}
 	})
 	<-d[0]
 	<-d[1]
-	return hsErr, pn, conn.ConnectionState().HandshakeComplete
+	return hsErr, pn, conn.ConnectionState().HandshakeComplete, wrote
+}
+
+// control: the unmodified recording must carry every endpoint kind deep into the handshake (up to the point where the
+// fresh randoms make the recorded Finished / key exchange fail); a replay harness whose endpoints give up at the hello
+// (say, because the configuration no longer matches the recording) would make the perturbation runs vacuous
+func TestC15_ReplayControl(t *testing.T) {
+	for _, ep := range fuzzEndpoints {
+		kind := "gm"
+		if ep == "tlsserver" || ep == "tlsclient" || ep == "autoserver_tls" {
+			kind = "tls"
+		}
+		rec := record(kind)
+		stream, own := rec.c2s, rec.s2c
+		if ep == "gmclient" || ep == "tlsclient" {
+			stream, own = rec.s2c, rec.c2s
+		}
+		hsErr, pn, complete, wrote := replayAgainstW(ep, stream, "control")
+		if pn != nil || hsErr == nil || complete {
+			t.Fatalf("control replay against %s: hs=%v panic=%v complete=%v", ep, hsErr, pn, complete)
+		}
+		// what the endpoint wrote in the recording before its peer's Finished: its whole first flight(s)
+		recs := wire.SplitRecords(own)
+		first := 0
+		for _, r := range recs {
+			if r[0] == 20 {
+				break
+			}
+			first += len(r)
+		}
+		// depth reached: a server answers with its whole certificate flight; a client cannot get past the recorded
+		// ServerKeyExchange (it signs the randoms), which is after ServerHello and Certificate were accepted. This is a
+		// coverage indicator (class replay_deep:<endpoint>, listed as missing when not reached), not an oracle.
+		deep := wrote >= first*3/4
+		if ep == "gmclient" || ep == "tlsclient" {
+			e := strings.ToLower(fmt.Sprint(hsErr))
+			deep = strings.Contains(e, "keyexchange") || strings.Contains(e, "key exchange") || strings.Contains(e, "signature") || strings.Contains(e, "verif")
+		}
+		if deep {
+			R.Class("replay_deep:" + ep)
+		}
+		R.Case(true, hx.HashKey("rctl", ep), "replay_control")
+	}
 }
 
 var fuzzEndpoints = []string{"gmclient", "gmserver", "autoserver", "tlsserver", "tlsclient", "autoserver_tls"}
